@@ -4,8 +4,9 @@
 #   model      coq/model/RbasexOut.v (hand-written, executable) on the geometry
 #              of model/DistrGeom.v
 #   tie        correspondence: rbasex_transform(..., out=...) with a fresh
-#              image-basis cache (and after an earlier call with other image
-#              parameters) against the model run in fixed-point arithmetic on
+#              image-basis cache, after an earlier call with other image
+#              parameters, and after earlier calls with the same parameters and
+#              other out values (the model carries the cache state) against the model run in fixed-point arithmetic on
 #              the returned distributions: shape exactly, pixels to 2^-40
 #   search     the clauses of the property on the implementation: image =
 #              synthesis of the returned distributions for every out, direction
@@ -51,11 +52,12 @@ def sqrt_tab(M):
     return vlib.list_lit(['(%d%%nat, %s)' % (n, vlib.q_lit(float(np.sqrt(float(n))))) for n in ns])
 
 
-def ocase_coq(h, w, o, rm, order, odd, out, recon, distr, d):
+def ocase_coq(h, w, o, rm, order, odd, out, recon, distr, d, history=()):
     M = max(max(recon.shape), h, w) + 1
     return ('{| oc_h := %d; oc_w := %d; oc_origin := %s; oc_rmax := %s; oc_order := %d; oc_odd := %s; oc_out := %s; '
-            'oc_sqrt := %s; oc_geom := (%d, %d, %d, %d, %d)%%nat; oc_cos := %s; oc_recon := %s |}'
-            % (h, w, L.origin_coq(o), L.rmax_coq(rm), order, vlib.bool_lit(odd), OUT[out], sqrt_tab(M),
+            'oc_history := %s; oc_sqrt := %s; oc_geom := (%d, %d, %d, %d, %d)%%nat; oc_cos := %s; oc_recon := %s |}'
+            % (h, w, L.origin_coq(o), L.rmax_coq(rm), order, vlib.bool_lit(odd), OUT[out],
+               vlib.list_lit([OUT[x] for x in history]), sqrt_tab(M),
                d.row, d.col, d.rmax, d.Qheight, d.Qwidth, vlib.img_q(distr.cos().tolist()), vlib.img_q(recon.tolist())))
 
 
@@ -85,8 +87,18 @@ def correspondence(ctx, rng, hits):
     for (h, w, o, rm, order, odd, out) in combos:
         IM = rng.integers(-9, 10, (h, w)).astype(float)
         history = 'fresh'
+        hist_outs = []
         try:
-            if rng.random() < 0.5:
+            k = rng.random()
+            if k < 0.35:
+                # earlier calls with the same image and parameters but other out values, no clean-up
+                history = 'after-same-parameters-other-out'
+                hist_outs = [OUTS[rng.integers(5)] for _ in range(int(rng.integers(1, 4)))]
+                rb().cache_cleanup()
+                for ho in hist_outs:
+                    call(IM, fresh=False, origin=o, rmax=rm, order=order, odd=odd, out=ho)
+                recon, distr = call(IM, fresh=False, origin=o, rmax=rm, order=order, odd=odd, out=out)
+            elif k < 0.65:
                 # an earlier call with other image parameters (resets the image basis), no clean-up
                 history = 'after-other-parameters'
                 call(rng.normal(size=(h + 1, w + 2)), fresh=bool(rng.integers(2)), origin='cc', rmax='MIN',
@@ -101,8 +113,8 @@ def correspondence(ctx, rng, hits):
             continue
         key = '%s/odd=%s/%s' % (out, odd or bool(order % 2), history)
         dist[key] = dist.get(key, 0) + 1
-        cases.append(ocase_coq(h, w, o, rm, order, odd, out, recon, distr, rb()._dst))
-        meta.append((h, w, o, rm, order, odd, out, history, IM.tolist()))
+        cases.append(ocase_coq(h, w, o, rm, order, odd, out, recon, distr, rb()._dst, hist_outs))
+        meta.append((h, w, o, rm, order, odd, out, history + ':' + ','.join(hist_outs), IM.tolist()))
     shard = 20
     texts = []
     for k in range(0, len(cases), shard):
@@ -347,7 +359,7 @@ def search(ctx, rng, budget, stats):
             if recH.shape != recon.shape or not np.allclose(recH, recon, rtol=0, atol=tol, equal_nan=True) \
                     or not np.allclose(distrH.cos(), cn, rtol=0, atol=tol, equal_nan=True):
                 g0 = out_geometry((h, w), row, col, R, odd_r, out0)
-                add('history', 'C16:ibs-cache-not-keyed-by-output-geometry',
+                add('history', 'C16:history:result-depends-on-earlier-out:%s->%s' % (out0, out),
                     'after a call with out=%r the same image with out=%r returns %s than with fresh caches (shape %r vs %r)'
                     % (out0, out, 'another shape' if recH.shape != recon.shape else 'other values', recH.shape, recon.shape),
                     dict(clause='result independent of earlier calls', history=[kdict(IM, o, rm, order, odd, out0, W, direction, reg)],
@@ -418,9 +430,9 @@ def run(ctx):
         'the Abel transform matrices themselves are the subject of C09',
         'C16_distr_independent_of_out is structural in the model (profiles are computed before `out` is read); on the '
         'implementation it is swept',
-        'C16_ibs_stale_refuted: the model follows the implementation (cache returned whatever the request); the correspondence '
-        'and the theorems about fresh caches use cache = None; histories with the same image parameters and another out are '
-        'exercised by the search only (recorded finding)',
+        'C16_ibs_history_independent: the model carries the cache state (_ibs_prm, _ibs) keyed by [height, width, row]; the '
+        'correspondence runs it through histories of calls with the same image parameters and other out values, the search '
+        'compares such histories with fresh-cache results on the implementation',
         'zero-weight pixels / valid flags / abel.Transform wrapper: swept numerically (zero-weight invariance of the profiles '
         'is theorem C15_zero_weight_pixels_ignored)',
     ]
